@@ -427,3 +427,94 @@ func ZZ_C01_LoadDeleteLoad() {
 	}
 	vfAssert("loading-history-is-linearizable", h.linearizable())
 }
+
+// ZZ_C08_StoreOnce: Store level, distinct keys. A reader fills a stripe and is stalled with its batch behind the
+// policy lock; a second reader then fills the same stripe with hits of other keys. When the lock is released,
+// no key has been credited with more read events than it was read (a batch is never delivered twice, and never
+// with items another reader put there), and nothing panics.
+func ZZ_C08_StoreOnce() {
+	s := zzThreadedStore(100, nil)
+	for k := uint64(1); k <= 4; k++ {
+		s.Set(k, 100+k, 1, 0)
+	}
+	s.Wait()
+	est := func(k uint64) uint {
+		h, _ := s.index(k)
+		return s.policy.sketch.Estimate(h)
+	}
+	var e0 [5]uint
+	for k := uint64(1); k <= 4; k++ {
+		e0[k] = est(k)
+	}
+	s.policyMu.Lock() // as SaveCache or a long maintenance run would
+	done := make(chan int, 2)
+	reader := func(a, b uint64) {
+		for i := 0; i < 8; i++ {
+			s.Get(a)
+			s.Get(b)
+		}
+		done <- 1
+	}
+	go reader(1, 3)
+	vfQuiesce() // the first reader holds its batch and waits for the policy lock
+	go reader(2, 4)
+	vfQuiesce()
+	s.policyMu.Unlock()
+	<-done
+	<-done
+	vfReach("both-readers-done")
+	s.policyMu.Lock()
+	for k := uint64(1); k <= 4; k++ {
+		vfAssert("no-key-credited-with-more-reads-than-it-had", est(k) <= e0[k]+8)
+	}
+	s.policyMu.Unlock()
+}
+
+// ZZ_C03_AfterLoad: a cache that has been up for U nanoseconds (U, TTL and downtime symbolic, up to 2^BITS ns) holds an entry with a TTL; it
+// is saved and loaded into a new cache (which adopts the saved clock origin) after a symbolic delay; the entry is
+// then read at a symbolic instant before the first maintenance tick of the new cache. A hit implies that the
+// deadline has not been reached, although the new cache's cached clock dates from before the load.
+func ZZ_C03_AfterLoad() {
+	vfSetHashMode(1)
+	StripedBufferSize = 1
+	origin := vfClockNow()
+	src := NewStore[uint64, uint64](&StoreOptions[uint64, uint64]{MaxSize: 10})
+	vfQuiesce()
+	U := vfI64("uptime")
+	ttl := vfI64("ttl")
+	d := vfI64("downtime")
+	d2 := vfI64("readDelay")
+	lim := int64(1) << uint(vfConfig("BITS", 40))
+	vfAssume(U >= 0)
+	if vfConfig("UFIX", 0) == 1 {
+		vfAssume(U == 1<<36) // quick tier: one uptime (68 s), TTL / downtime / read delay symbolic
+	} else {
+		vfAssume(U <= lim)
+	}
+	vfAssume(ttl >= 1)
+	vfAssume(ttl <= lim)
+	vfAssume(d >= 0)
+	vfAssume(d <= lim)
+	vfAssume(d2 >= 0)
+	vfAssume(d2 < 1<<29) // the read comes before the first tick of the new cache
+	vfClockSet(origin + U)
+	ok := src.Set(1, 7, 1, time.Duration(ttl))
+	vfAssert("set-accepted", ok)
+	src.Wait()
+	w := vfGhostStream()
+	err := src.Persist(1, w)
+	vfAssert("save-succeeds", err == nil)
+	E := U + ttl // deadline, relative to the saved origin
+	vfClockSet(origin + U + d)
+	dst := NewStore[uint64, uint64](&StoreOptions[uint64, uint64]{MaxSize: 10})
+	vfQuiesce()
+	err = dst.Recover(1, vfStreamReader(w))
+	vfAssert("load-succeeds", err == nil)
+	vfClockSet(origin + U + d + d2)
+	W := U + d + d2
+	v, hit := dst.Get(1)
+	vfReach("read-after-load")
+	vfAssert("after-load:no-hit-at-or-after-deadline", vfImplies(hit, W < E))
+	vfAssert("after-load:value", vfImplies(hit, v == 7))
+	vfAssert("after-load:live-entry-restored", vfImplies(U+d < E, hit || W >= E))
+}
